@@ -474,11 +474,18 @@ func (s *state) walkUseNode(node *parse.UseNode) error {
 		return err
 	}
 	blocks := tree.Blocks()
+	// Every alias names a block as the used template defines it; the aliases
+	// are looked up before any is added, so that the result does not depend
+	// on the order in which the map of aliases happens to be visited.
+	aliased := make(map[string]*parse.BlockNode, len(node.Aliases))
 	for orig, alias := range node.Aliases {
 		v, ok := blocks[orig]
 		if !ok {
 			return errors.New("Unable to locate block with name \"" + orig + "\"")
 		}
+		aliased[alias] = v
+	}
+	for alias, v := range aliased {
 		blocks[alias] = v
 	}
 	l := len(s.blocks)
